@@ -31,6 +31,7 @@ type Solver struct {
 	oneShot     bool // every query is sent as a fresh script after (reset): z3 then uses its tactic pipeline, not the incremental core
 
 	queries, nsat, nunsat, nunknown int
+	nfallback                       int
 	dur                             time.Duration
 	slowest                         time.Duration
 
@@ -306,6 +307,20 @@ func (s *Solver) Check(extra *Term, vars []*Term) (string, map[string]uint64) {
 	if s.sampleEvery > 0 && s.queries%s.sampleEvery == 0 && (r == "sat" || r == "unsat") {
 		s.samples = append(s.samples, querySample{s.script(), r})
 	}
+	if r != "sat" && r != "unsat" && s.oneShot {
+		// the primary solver gave up (time-out): the same self-contained script goes to the other solvers
+		if fr, fm, ok := s.fallback(vars); ok {
+			s.nfallback++
+			s.Pop()
+			if fr == "sat" {
+				s.nsat++
+			} else {
+				s.nunsat++
+			}
+			s.dur += time.Since(t0)
+			return fr, fm
+		}
+	}
 	var model map[string]uint64
 	switch r {
 	case "sat":
@@ -338,6 +353,43 @@ func (s *Solver) Check(extra *Term, vars []*Term) (string, map[string]uint64) {
 		// a timed-out z3 may be in a bad state; restart it lazily by the caller's next Reset.
 	}
 	return r, model
+}
+
+// fallback re-decides the current query (path condition + pushed extra) with z3 5.1.0 and then cvc5.
+func (s *Solver) fallback(vars []*Term) (string, map[string]uint64, bool) {
+	script := s.script()
+	if len(vars) > 0 {
+		names := make([]string, len(vars))
+		for i, v := range vars {
+			names[i] = v.name
+		}
+		script += "(get-value (" + strings.Join(names, " ") + "))\n"
+	}
+	for _, bin := range [][]string{{"z3-new", "-in", "-smt2", "-T:120"}, {"cvc5", "--lang=smt2", "--produce-models", "--tlimit=120000"}} {
+		cmd := exec.Command(bin[0], bin[1:]...)
+		cmd.Stdin = strings.NewReader(script)
+		out, _ := cmd.Output()
+		txt := strings.TrimSpace(string(out))
+		first := txt
+		rest := ""
+		if i := strings.Index(txt, "\n"); i >= 0 {
+			first, rest = strings.TrimSpace(txt[:i]), txt[i+1:]
+		}
+		switch first {
+		case "unsat":
+			return "unsat", nil, true
+		case "sat":
+			m := map[string]uint64{}
+			if len(vars) > 0 {
+				if strings.Contains(rest, "(error") {
+					continue
+				}
+				m = parseValues(rest)
+			}
+			return "sat", m, true
+		}
+	}
+	return "", nil, false
 }
 
 // storeCore asks for the unsat core of the query just answered and caches it under the extra term.
@@ -380,11 +432,15 @@ func (s *Solver) getValues(vars []*Term) map[string]uint64 {
 	}
 	s.raw("(get-value (" + strings.Join(names, " ") + "))")
 	out := s.readSexp()
-	res := map[string]uint64{}
 	if strings.HasPrefix(out, "(error") {
 		s.errs = append(s.errs, out)
-		return res
+		return map[string]uint64{}
 	}
+	return parseValues(out)
+}
+
+func parseValues(out string) map[string]uint64 {
+	res := map[string]uint64{}
 	// tokens: ((name val) (name val) ...)
 	out = strings.NewReplacer("(", " ", ")", " ").Replace(out)
 	f := strings.Fields(out)
